@@ -7,8 +7,8 @@ import QmiModel.Gen.TransportTables
 Property theorems only (vocabulary and helper lemmas: `Lemmas/C14.lean`, `Lemmas/C14Roundtrip.lean`; model:
 `Model/Descriptor.lean`; tables regenerated from the source on every run: `Gen/TransportTables.lean`).
 
-State after the repairs c763390, 794f5cc, d053f6d, 4a3416c, 8caa6aa, 72eceb6 in /repo: `total` holds at full strength
-on the current tables.  The generic theorems quantify over *all* tables; what they need of a table set is decidable
+State after the repairs c763390, 794f5cc, d053f6d, 4a3416c, 8caa6aa, 72eceb6, 665b86e, 1757bc8 in /repo: `total` holds at
+full strength on the current tables, for defaults of any type, and listed USBTMC resources round-trip for every serial number.  The generic theorems quantify over *all* tables; what they need of a table set is decidable
 (`EnvOk`, `AllAligned`) and re-evaluated on the regenerated tables by `decide`.
 -/
 namespace QmiModel.Descriptor
@@ -16,19 +16,24 @@ open QmiModel.Gen.TransportTables (env)
 
 /-! ## Totality -/
 
+def isOk {α : Type} : Res α → Bool
+  | .ok _ => true
+  | .err _ => false
+
 /-- the result is a transport or the descriptor error -/
 def OkOrDescriptor (r : Res Transport) : Prop := (∃ t, r = .ok t) ∨ r = .err .descriptor
 
 /-- **Classification of everything that can escape**, for *all* tables passing the decidable sanity check `EnvOk`,
-both platforms, all strings and all well-typed default dictionaries: the only exception other than the descriptor
-error is the `TypeError` of a parameter set that does not fit the constructor signature. -/
+both platforms, all strings and *all* default dictionaries (values of any type): the only exception other than the
+descriptor error is the `TypeError` of a parameter set that does not fit the constructor signature. -/
 theorem escapes_classified (E : Env) (win : Bool) (s : Str) (d : List (Str × PyVal))
-    (hE : EnvOk E = true) (hd : ∀ I ∈ E.ifaces, DefaultsTyped I d) :
+    (hE : EnvOk E = true) :
     match createTransport E win s d with
     | .ok _ => True
     | .err .descriptor => True
     | .err .typeError => CtorMismatch E win s d
-    | .err .valueError => False := by
+    | .err .valueError => False
+    | .err .attributeError => False := by
   unfold createTransport
   cases hp : parseParts s with
   | err e => have := parseParts_err hp; subst this; simp
@@ -56,11 +61,11 @@ theorem escapes_classified (E : Env) (win : Bool) (s : Str) (d : List (Str × Py
             subst h1; simp only; exact ⟨I, c, p, hreach, h2⟩
           | ok a =>
             simp only
-            cases hk : construct E c.kind a with
+            cases hk : construct E c a with
             | ok attrs => simp
             | err e =>
-              have ht := args_typed hcok (fun k v hkv => parseParams_typed hN (hd I hIm) hpp hkv) hb
-              have := construct_err ht hk
+              have ht := args_typed hcok (fun k v hkv => parseParams_typed hN hpp hkv) hb
+              have := exec_err ht hk
               subst this; simp
 
 /-- a descriptor that reaches the constructor of an interface whose table is aligned with the constructor signature
@@ -72,10 +77,10 @@ theorem aligned_never_mismatches (E : Env) (hE : EnvOk E = true) (win : Bool) (s
   exact bindable_of_aligned (envOk_iface hE hIm hc).1 ha hpp
 
 /-- **Totality for every aligned set of tables**: all strings (well-formed, nearly well-formed, arbitrary), all
-well-typed default dictionaries, both platforms — a transport or the descriptor error, nothing else. -/
+default dictionaries, both platforms — a transport or the descriptor error, nothing else. -/
 theorem total_of_aligned (E : Env) (hE : EnvOk E = true) (hA : AllAligned E = true) (win : Bool) (s : Str)
-    (d : List (Str × PyVal)) (hd : ∀ I ∈ E.ifaces, DefaultsTyped I d) : OkOrDescriptor (createTransport E win s d) := by
-  have h := escapes_classified E win s d hE hd
+    (d : List (Str × PyVal)) : OkOrDescriptor (createTransport E win s d) := by
+  have h := escapes_classified E win s d hE
   cases hr : createTransport E win s d with
   | ok t => exact Or.inl ⟨t, rfl⟩
   | err e =>
@@ -83,6 +88,7 @@ theorem total_of_aligned (E : Env) (hE : EnvOk E = true) (hA : AllAligned E = tr
     cases e with
     | descriptor => exact Or.inr rfl
     | valueError => exact h.elim
+    | attributeError => exact h.elim
     | typeError =>
       obtain ⟨I, c, p, hreach, hb⟩ := h
       obtain ⟨parts, hp, hf, hpp, hc⟩ := hreach
@@ -96,18 +102,18 @@ theorem gen_envOk : EnvOk env = true := by decide
 theorem gen_aligned : AllAligned env = true := by decide
 
 /-- **`total`, the first sentence of the property at full strength, on the current source's tables**: for every
-descriptor string, platform and well-typed defaults dictionary `create_transport` returns a transport or raises
-`QMI_TransportDescriptorException`; no other exception type escapes. -/
-theorem total (win : Bool) (s : Str) (d : List (Str × PyVal)) (hd : ∀ I ∈ env.ifaces, DefaultsTyped I d) :
-    OkOrDescriptor (createTransport env win s d) :=
-  total_of_aligned env gen_envOk gen_aligned win s d hd
+descriptor string, every platform and every defaults dictionary — whatever the types of its values —
+`create_transport` returns a transport or raises `QMI_TransportDescriptorException`; no other exception type escapes.
+No hypothesis. -/
+theorem total (win : Bool) (s : Str) (d : List (Str × PyVal)) : OkOrDescriptor (createTransport env win s d) :=
+  total_of_aligned env gen_envOk gen_aligned win s d
 
 /-- non-vacuity: both outcomes occur, and the inputs that used to escape on the pinned tree (04de7e7) now give the
 descriptor error — or, for a serial port without baud rate, the documented default -/
 example :
     createTransport env false "tcp:[::1]:5025:connect_timeout=2.5".toList [] =
-      .ok ⟨"QMI_TcpTransport".toList, [("host".toList, .str "::1".toList), ("port".toList, .int 5025),
-                                       ("connect_timeout".toList, .flt "2.5".toList)]⟩ ∧
+      .ok ⟨"QMI_TcpTransport".toList, [("_address".toList, [.str "::1".toList, .int 5025]),
+                                       ("_connect_timeout".toList, [.flt "2.5".toList])]⟩ ∧
     createTransport env false "tcp:h:5:connect_timeout=1=2".toList [] = .err .descriptor ∧
     createTransport env false ['t', 'c', 'p', ':', 'a', Char.ofNat 0, 'b', ':', '5'] [] = .err .descriptor ∧
     createTransport env false "tcp:connect_timeout=1".toList [("host".toList, .str []), ("port".toList, .int 5)]
@@ -115,20 +121,27 @@ example :
     createTransport env true "usbtmc:serialnr=X".toList [] = .err .descriptor ∧
     createTransport env false "udp:h:5:connect_timeout=1".toList [] = .err .descriptor ∧
     createTransport env false "udp:h:5".toList [("connect_timeout".toList, .flt "1.5".toList)] =
-      .ok ⟨"QMI_UdpTransport".toList, [("host".toList, .str "h".toList), ("port".toList, .int 5)]⟩ ∧
-    createTransport env false "serial:COM3".toList [] =
-      .ok ⟨"QMI_SerialTransport".toList, [("device".toList, .str "COM3".toList), ("baudrate".toList, .int 115200),
-        ("bytesize".toList, .int 8), ("parity".toList, .str "N".toList), ("stopbits".toList, .flt "1.0".toList),
-        ("rtscts".toList, .bool false)]⟩ := by
+      .ok ⟨"QMI_UdpTransport".toList, [("_address".toList, [.str "h".toList, .int 5])]⟩ ∧
+    (match createTransport env false "serial:COM3".toList [] with
+     | .ok t => t.cls == "QMI_SerialTransport".toList && t.attrs.isPerm
+         [("device".toList, [.str "COM3".toList]), ("_baudrate".toList, [.int 115200]), ("_bytesize".toList, [.int 8]),
+          ("_parity".toList, [.str "N".toList]), ("_stopbits".toList, [.flt "1.0".toList]), ("_rtscts".toList, [.bool false])]
+     | .err _ => false) = true := by
   refine ⟨by decide, by decide, by decide, by decide, by decide, by decide, by decide, by decide⟩
 
-/-- the defaults hypothesis of `total` is satisfiable by a non-trivial dictionary -/
-example : ∀ I ∈ env.ifaces, DefaultsTyped I [("port".toList, .int 5025), ("baudrate".toList, .int 9600),
-    ("connect_timeout".toList, .flt "7.5".toList), ("host".toList, .str []), ("rtscts".toList, .bool true)] := by
-  intro I hI
-  apply defaultsTyped_of_check
-  revert I
-  decide
+/-- defaults of the wrong type (repaired by 665b86e: type check of the kept defaults): the descriptor error, where the
+validators used to raise `TypeError` / `AttributeError`; a `bool` is an `int` for Python and passes, an `int` passes for a
+`float`; a default meant for another interface is dropped before the check -/
+example :
+    createTransport env false "tcp:h".toList [("port".toList, .str "5".toList)] = .err .descriptor ∧
+    createTransport env false "tcp:h".toList [("port".toList, .none)] = .err .descriptor ∧
+    createTransport env false "tcp:connect_timeout=1".toList [("host".toList, .int 5), ("port".toList, .int 5)] = .err .descriptor ∧
+    createTransport env false "serial:baudrate=5".toList [("device".toList, .int 5)] = .err .descriptor ∧
+    createTransport env false "tcp:h:5".toList [("connect_timeout".toList, .none)] = .err .descriptor ∧
+    isOk (createTransport env false "tcp:h".toList [("port".toList, .bool true)]) = true ∧
+    isOk (createTransport env false "serial:COM1".toList [("stopbits".toList, .int 1)]) = true ∧
+    isOk (createTransport env false "tcp:h:5".toList [("baudrate".toList, .str "x".toList)]) = true := by
+  refine ⟨by decide, by decide, by decide, by decide, by decide, by decide, by decide, by decide⟩
 
 /-- Historical example about a *constant* (not about the source): with the serial table and constructor signature of
 the pinned tree 04de7e7 — `baudrate` optional in the table, without default in the constructor — the table is not
@@ -138,11 +151,11 @@ example :
       { name := "serial".toList,
         positionals := [⟨"device".toList, .str, true⟩],
         keywords := [⟨"baudrate".toList, .int, false⟩],
-        ctorLinux := some { cls := "QMI_SerialTransport".toList, kind := .gpib,
-                            args := [("device".toList, none), ("baudrate".toList, none)] },
+        ctorLinux := some { cls := "QMI_SerialTransport".toList,
+                            args := [("device".toList, none), ("baudrate".toList, none)], prog := [] },
         ctorWin := none }
-    AllAligned { ifaces := [pinnedSerial], udpReserved := 35999, localhostAddr := [] } = false ∧
-    createTransport { ifaces := [pinnedSerial], udpReserved := 35999, localhostAddr := [] } false "serial:COM3".toList []
+    AllAligned { ifaces := [pinnedSerial], localhostAddr := [] } = false ∧
+    createTransport { ifaces := [pinnedSerial], localhostAddr := [] } false "serial:COM3".toList []
       = .err .typeError := by
   constructor <;> decide
 
@@ -199,12 +212,13 @@ example :
   refine ⟨by decide, by decide, by decide, by decide, by decide⟩
 
 /-- **End to end.**  Whenever `create_transport` returns, the transport is of the class the table names for the
-interface and platform, and every attribute is `attrSpec`: the typed value of the parameter's token, else the
-caller's default, else the constructor default — modulo the documented resolution of the literal host `localhost`. -/
+interface and platform, and its attributes are exactly what the translated `__init__` stores (`attrsOf`) from bound
+arguments `a` each of which is `boundSpec`: the typed value of the parameter's token, else the caller's default, else
+the constructor default.  (`attr_plain` / `attr_localhost` below say what a stored value is in terms of the bound one.) -/
 theorem create_faithful (E : Env) (hE : EnvOk E = true) (win : Bool) (s : Str) (d : List (Str × PyVal)) (t : Transport)
     (h : createTransport E win s d = .ok t) :
-    ∃ parts I c, parseParts s = .ok parts ∧ findIface E (parts.headD []) = some I ∧ I.ctor win = some c ∧
-      t.cls = c.cls ∧ ∀ n, dget t.attrs n = attrSpec E c I parts d n := by
+    ∃ parts I c a, parseParts s = .ok parts ∧ findIface E (parts.headD []) = some I ∧ I.ctor win = some c ∧
+      t.cls = c.cls ∧ (∀ n, dget a n = boundSpec c I parts d n) ∧ (ordered c.prog = true → t.attrs = attrsOf E c a) := by
   unfold createTransport at h
   cases hp : parseParts s with
   | err e => rw [hp] at h; cases h
@@ -233,46 +247,88 @@ theorem create_faithful (E : Env) (hE : EnvOk E = true) (win : Bool) (s : Str) (
           | ok a =>
             rw [hb] at h
             simp only at h
-            cases hk : construct E c.kind a with
+            cases hk : construct E c a with
             | err e => rw [hk] at h; cases h
             | ok attrs =>
               rw [hk] at h
               simp only [Res.ok.injEq] at h
               subst h
-              refine ⟨parts, I, c, rfl, hf, hc, rfl, ?_⟩
-              intro n
-              have hN := (envOk_iface hE hIm hc).1
-              simp only
-              rw [construct_ok hk n]
-              have hg := bindEach_get (bindArgs_ok hb) n
-              unfold attrSpec
-              cases hfa : c.args.find? (fun x => x.1 = n) with
-              | none => rw [hfa] at hg; simp only at hg; rw [hg]; rfl
-              | some ar =>
-                rw [hfa] at hg
-                obtain ⟨v, hv, hsrc⟩ := hg
-                rw [hv, ← faithful I hN parts d p hpp n]
-                cases hpn : dget p n with
-                | some w => rw [hpn] at hsrc; simp only at hsrc; subst hsrc; rfl
-                | none => rw [hpn] at hsrc; simp only at hsrc; simp only [hsrc]
+              refine ⟨parts, I, c, a, rfl, hf, hc, rfl, ?_, ?_⟩
+              · intro n
+                have hN := (envOk_iface hE hIm hc).1
+                have hg := bindEach_get (bindArgs_ok hb) n
+                unfold boundSpec
+                cases hfa : c.args.find? (fun x => x.1 = n) with
+                | none => rw [hfa] at hg; exact hg
+                | some ar =>
+                  rw [hfa] at hg
+                  obtain ⟨v, hv, hsrc⟩ := hg
+                  rw [hv, ← faithful I hN parts d p hpp n]
+                  cases hpn : dget p n with
+                  | some w => rw [hpn] at hsrc; simp only at hsrc; subst hsrc; rfl
+                  | none => rw [hpn] at hsrc; simp only at hsrc; simp only [hsrc]
+              · intro ho
+                have := exec_ok hk ho
+                simpa [attrsOf] using this
+
+/-- a stored parameter that no `localhost` resolution touches is exactly the bound argument … -/
+theorem attr_plain (E : Env) (c : Ctor) (a : List (Str × PyVal)) (n : Str) (h : n ∉ resolvesOf c.prog) :
+    arg (resolveAll E (resolvesOf c.prog) a) n = arg a n :=
+  arg_resolveAll_of_not_mem E _ a n h
+
+/-- … and the resolved one is the bound string with the literal `localhost` replaced by its address -/
+theorem attr_localhost (E : Env) (a : List (Str × PyVal)) (p : Str) :
+    arg (resolveAll E [p] a) p = (match arg a p with | .str h => .str (normLocalhost E h) | v => v) :=
+  arg_resolveAll_single E a p
+
+/-- **Obligations on the translated `__init__` bodies of the current source** (recomputed on every run): attributes are
+assigned after every `localhost` resolution; every constructor argument is stored exactly once, alone in the attribute
+named after it (`p` / `_p`) or as `(host, port)` in `_address` — a swapped assignment or `super().__init__` argument
+fails here; and the only resolved parameter is `host`. -/
+theorem gen_stores : ∀ I ∈ env.ifaces, ∀ win c, I.ctor win = some c →
+    ordered c.prog = true ∧ storesNamed c = true ∧ (resolvesOf c.prog = [] ∨ resolvesOf c.prog = [sHost]) := by
+  decide
+
+/-- the validator tests a constructor applies, as a set (the order of independent `_validate_*` calls is immaterial:
+each can only raise the descriptor error) -/
+def validatorsAre (I : Iface) (win : Bool) (expected : List (Str × Cond)) : Bool :=
+  match I.ctor win with
+  | some c => (validatesOf c.prog).isPerm expected
+  | none => expected.isEmpty
+
+/-- **The validator tests of the current source, literally** (recomputed on every run): which test guards which parameter,
+with its bounds and constants, on both platforms.  A changed range, a dropped validator call or one applied to another
+parameter fails here. -/
+theorem gen_validators :
+    env.ifaces.map (·.name) = ["serial".toList, "udp".toList, "tcp".toList, "usbtmc".toList, "gpib".toList, "vxi11".toList] ∧
+    (∀ win,
+      validatorsAre QmiModel.Gen.TransportTables.serial win
+        [("device".toList, .notDevice "COM".toList "/".toList), ("baudrate".toList, .lt 1),
+         ("bytesize".toList, .or (.lt 5) (.gt 8)), ("parity".toList, .notInStrs ["N".toList, "E".toList, "O".toList]),
+         ("stopbits".toList, .notStopbits), ("rtscts".toList, .notBool)] = true ∧
+      validatorsAre QmiModel.Gen.TransportTables.udp win
+        [("host".toList, .badHost), ("port".toList, .or (.lt 1) (.gt 65535)), ("port".toList, .eq 35999)] = true ∧
+      validatorsAre QmiModel.Gen.TransportTables.tcp win
+        [("host".toList, .badHost), ("port".toList, .or (.lt 1) (.gt 65535))] = true ∧
+      validatorsAre QmiModel.Gen.TransportTables.usbtmc win
+        [("vendorid".toList, .or (.lt 0) (.gt 65535)), ("productid".toList, .or (.lt 0) (.gt 65535))] = true ∧
+      validatorsAre QmiModel.Gen.TransportTables.gpib win [] = true ∧
+      validatorsAre QmiModel.Gen.TransportTables.vxi11 win [("host".toList, .badHost)] = true) := by
+  decide
 
 /-- non-vacuity of `create_faithful`, with the `localhost` normalisation and a constructor default visible -/
 example : createTransport env false "tcp:localhost:5025".toList [] =
-    .ok ⟨"QMI_TcpTransport".toList, [("host".toList, .str "127.0.0.1".toList), ("port".toList, .int 5025),
-                                     ("connect_timeout".toList, .int 10)]⟩ := by decide
-
+    .ok ⟨"QMI_TcpTransport".toList, [("_address".toList, [.str "127.0.0.1".toList, .int 5025]),
+                                     ("_connect_timeout".toList, [.int 10])]⟩ := by decide
 
 /-! ## Round trip: the formats QMI itself produces parse back to the values they were formatted from -/
 
-/-- **Listed USBTMC resources.**  For every vendor and product id in the 16-bit range and every serial number
-without `':'` (it may contain `'='`), on both platforms: the descriptor `_format_resources` builds
-(`usbtmc:vendorid=0x%04x:productid=0x%04x:serialnr=%s`) gives a transport holding exactly these three values. -/
-theorem roundtrip_usbtmc (win : Bool) (v p : Nat) (sn : Str) (hv : v ≤ 65535) (hp : p ≤ 65535)
-    (hsn : ∀ c ∈ sn, c ≠ ':') :
+/-- **Listed USBTMC resources.**  For every vendor and product id in the 16-bit range and *every* serial number (colons,
+equals signs, percent signs included), on both platforms: the descriptor `_format_resources` builds
+(`usbtmc:vendorid=0x%04x:productid=0x%04x:serialnr=<escaped serial>`) gives a transport holding exactly these values. -/
+theorem roundtrip_usbtmc (win : Bool) (v p : Nat) (sn : Str) (hv : v ≤ 65535) (hp : p ≤ 65535) :
     ∃ cls, createTransport env win (renderUsbtmc (Int.ofNat v) (Int.ofNat p) sn) [] =
-      .ok ⟨cls, [(sVendorid, .int v), (sProductid, .int p), (sSerialnr, .str sn)]⟩ := by
-  obtain ⟨_, hxv, _⟩ := fmt04x_spec v
-  obtain ⟨_, hxp, _⟩ := fmt04x_spec p
+      .ok ⟨cls, [(sVendorid, [.int v]), (sProductid, [.int p]), (sSerialnr, [.str sn])]⟩ := by
   have kw : ∀ (pre body : Str), isKw pre = true → isKw (pre ++ body) = true := by
     intro pre body h; unfold isKw at *; rw [List.any_append, h]; rfl
   have conv : ∀ n : Nat, convKw .int ('0' :: 'x' :: fmt04x (Int.ofNat n)) = .ok (.int n) := by
@@ -286,14 +342,20 @@ theorem roundtrip_usbtmc (win : Bool) (v p : Nat) (sn : Str) (hv : v ≤ 65535) 
     · simp [splitEq, sVendorKw, sVendorid, breakEq]
     · simp [splitEq, sProductKw, sProductid, breakEq]
     · simp [splitEq, sSerialKw, sSerialnr, breakEq]
-  exact usbtmc_eval win _ _ _ _ _ _ sn v p (parseParts_usbtmc v p sn hsn)
+  have := usbtmc_eval win _ _ _ _ _ _ (escape sn) v p (parseParts_usbtmc v p sn)
     (kw _ _ (by decide)) (kw _ _ (by decide)) (kw _ _ (by decide))
-    (sp _).1 (sp _).2.1 (sp sn).2.2 (conv v) (conv p) (by omega) (by omega)
+    (sp _).1 (sp _).2.1 (sp (escape sn)).2.2 (conv v) (conv p) (by omega) (by omega)
+  rw [unescape_escape] at this
+  exact this
 
-/-- non-vacuity, with the widest id and a serial number containing brackets, a space and `'='` -/
-example : ∃ cls, createTransport env true (renderUsbtmc 65535 0 "A [1]=b".toList) [] =
-    .ok ⟨cls, [(sVendorid, .int 65535), (sProductid, .int 0), (sSerialnr, .str "A [1]=b".toList)]⟩ :=
-  roundtrip_usbtmc true 65535 0 _ (by decide) (by decide) (by decide)
+/-- the escaping itself: `_unescape(_escape(s)) == s` for every string, and an escaped string has no colon -/
+theorem escape_roundtrip (s : Str) : unescape (escape s) = s ∧ ∀ c ∈ escape s, c ≠ ':' :=
+  ⟨unescape_escape s, escape_no_colon s⟩
+
+/-- non-vacuity, with the widest id and a serial number containing brackets, a space, `'='`, `':'` and `'%'` -/
+example : ∃ cls, createTransport env true (renderUsbtmc 65535 0 "A [1]=b:%3A".toList) [] =
+    .ok ⟨cls, [(sVendorid, [.int 65535]), (sProductid, [.int 0]), (sSerialnr, [.str "A [1]=b:%3A".toList])]⟩ :=
+  roundtrip_usbtmc true 65535 0 _ (by decide) (by decide)
 
 /-- what is rendered is what `_format_resources` writes for such a resource (the hexadecimal form, zero padded) -/
 example : renderUsbtmc 0x699 0x3000 "XYZ".toList = "usbtmc:vendorid=0x0699:productid=0x3000:serialnr=XYZ".toList ∧
@@ -324,7 +386,7 @@ well-formed host other than the literal `localhost` and every port 1 … 65535. 
 theorem roundtrip_tcp (win : Bool) (h : Str) (port : Nat) (w : HostWF h) (hl : h ≠ sLocalhost)
     (hp : 1 ≤ port ∧ port ≤ 65535) :
     createTransport env win (renderHostPort sTcp h port) [] =
-      .ok ⟨clsTcp, [(sHost, .str h), (sPort, .int port), (sConnectTimeout, .int 10)]⟩ := by
+      .ok ⟨clsTcp, [(sAddress, [.str h, .int port]), (sConnectTimeoutAttr, [.int 10])]⟩ := by
   have hd := (toDec_spec port).2.1
   exact tcp_eval win _ h (toDec port) port
     (parseParts_hostPort sTcp h port (by decide) (by decide) w.ne_nil w.noNl w.noBracket)
@@ -334,17 +396,17 @@ theorem roundtrip_tcp (win : Bool) (h : Str) (port : Nat) (w : HostWF h) (hl : h
 /-- … UDP (any port but the reserved responder port) … -/
 theorem roundtrip_udp (win : Bool) (h : Str) (port : Nat) (w : HostWF h) (hl : h ≠ sLocalhost)
     (hp : 1 ≤ port ∧ port ≤ 65535) (hr : port ≠ 35999) :
-    createTransport env win (renderHostPort sUdp h port) [] = .ok ⟨clsUdp, [(sHost, .str h), (sPort, .int port)]⟩ := by
+    createTransport env win (renderHostPort sUdp h port) [] = .ok ⟨clsUdp, [(sAddress, [.str h, .int port])]⟩ := by
   have hd := (toDec_spec port).2.1
   exact udp_eval win _ h (toDec port) port
     (parseParts_hostPort sUdp h port (by decide) (by decide) w.ne_nil w.noNl w.noBracket)
     (isKw_false h w.noEq) (isKw_false _ (lowerHex_plain_chars (fun c hc => (hd c hc).1)).2.1)
     (dec_read port (port_lt_limit port hp.2)) w.valid hl (by omega)
-    (by simp only [env]; omega)
+    (by omega)
 
 /-- … and VXI-11 (host only; `localhost` is kept as it is there). -/
 theorem roundtrip_vxi11 (win : Bool) (h : Str) (w : HostWF h) :
-    createTransport env win (sVxi11 ++ ':' :: renderHost h) [] = .ok ⟨clsVxi11, [(sHost, .str h)]⟩ :=
+    createTransport env win (sVxi11 ++ ':' :: renderHost h) [] = .ok ⟨clsVxi11, [(sHostAttr, [.str h])]⟩ :=
   vxi11_eval win _ h (parseParts_host sVxi11 h (by decide) (by decide) w.ne_nil w.noNl w.noBracket)
     (isKw_false h w.noEq) w.valid
 
